@@ -27,29 +27,35 @@ def wma(x, p):
     return out
 
 
-def ema(x, p, a=None, seed="sma"):
+def ema(x, p, a=None, seed="sma", rnd=None):
+    """rnd: rounding applied to every stored value (helper series are stored with 4 decimals)"""
     a = a if a is not None else 2 / (p + 1)
     out = []
     prev = None
+    rr = (lambda v: v) if rnd is None else rnd
     for i in range(len(x)):
         if prev is None:
             w = window(x, i, p)
             if w is not None:
                 if seed == "sma":
-                    prev = sum(w) / p
+                    prev = rr(sum(w) / p)
                 else:
                     ws = [(1 - a) ** k for k in range(p)]
-                    prev = sum(wk * w[p - 1 - k] for k, wk in enumerate(ws)) / sum(ws)
+                    prev = rr(sum(wk * w[p - 1 - k] for k, wk in enumerate(ws)) / sum(ws))
         elif x[i] is None:
             prev = None
         else:
-            prev = a * x[i] + (1 - a) * prev
+            prev = rr(a * x[i] + (1 - a) * prev)
         out.append(prev)
     return out
 
 
-def rma(x, p):
-    return ema(x, p, 1 / p, "decay")
+def rma(x, p, rnd=None):
+    return ema(x, p, 1 / p, "decay", rnd)
+
+
+def r4(v):
+    return round(v, 4)
 
 
 def vwma(c, v, p):
@@ -83,6 +89,20 @@ def wilder(x, p):
                 prev = sum(w) / p
         else:
             prev = (prev * (p - 1) + x[i]) / p
+        out.append(prev)
+    return out
+
+
+def wilder_rounded(x, p):
+    out = []
+    prev = None
+    for i in range(len(x)):
+        if prev is None:
+            w = window(x, i, p)
+            if w is not None:
+                prev = r4(sum(w) / p)
+        else:
+            prev = r4((prev * (p - 1) + x[i]) / p)
         out.append(prev)
     return out
 
@@ -165,7 +185,8 @@ def stoch(h, l, c, p, k, d):
 def tsi(x, p, sp):
     m = [None] + [None if x[i] is None or x[i - 1] is None else x[i] - x[i - 1] for i in range(1, len(x))]
     am = [None if v is None else abs(v) for v in m]
-    a, b = ema(ema(m, p), sp), ema(ema(am, p), sp)
+    # the four smoothing stages are helper series, stored with 4 decimals
+    a, b = ema(ema(m, p, rnd=r4), sp, rnd=r4), ema(ema(am, p, rnd=r4), sp, rnd=r4)
     return [None if u is None or v is None else (100 * u / v if v else 0.0) for u, v in zip(a, b)]
 
 
@@ -191,11 +212,14 @@ def adx(h, l, c, p, ps):
         u, d = h[i] - h[i - 1], l[i - 1] - l[i]
         pos.append(u if u > d and u > 0 else 0.0)
         neg.append(d if d > u and d > 0 else 0.0)
-    a, sp, sn = atr(h, l, c, p), rma(pos, p), rma(neg, p)
+    # ATR (over a 4-decimal TR), the smoothed +DM/-DM and ADX itself are helper series stored with 4 decimals
+    trr = [None if v is None else r4(v) for v in tr(h, l, c)]
+    a = [None if v is None else r4(v) for v in wilder_rounded(trr, p)]
+    sp, sn = rma(pos, p, r4), rma(neg, p, r4)
     dip = [None if x is None or y is None else (100 * y / x if x else 0.0) for x, y in zip(a, sp)]
     din = [None if x is None or y is None else (100 * y / x if x else 0.0) for x, y in zip(a, sn)]
     dx = [None if x is None or y is None else (100 * abs(x - y) / (x + y) if x + y else 0.0) for x, y in zip(dip, din)]
-    return rma(dx, ps), dip, din
+    return rma(dx, ps, r4), dip, din
 
 
 def supertrend(h, l, c, p, mult):
